@@ -25,6 +25,14 @@ impl CancelIo for CancelIoImpl {
     unsafe fn cancel(&self) -> Option<std::io::Result<()>> {
         if let Some(e) = self.0.take() {
             if let Some(co) = e.co.take() {
+                // whoever takes the coroutine disarms the io timer, or it would
+                // later fire into another operation on the same io object.
+                // we are not the selector thread that owns the timer list: like `del_fd`
+                // only mark the entry, the selector pops it when it expires
+                #[cfg(feature = "io_timeout")]
+                if let Some(h) = e.timer.borrow_mut().take() {
+                    h.with_mut_data(|value| value.data.event_data = std::ptr::null_mut());
+                }
                 get_scheduler().schedule(co);
                 return Some(Ok(()));
             }
